@@ -10,6 +10,7 @@
   Shares nothing with `Model.Hide` except `Prim` and XOR on octet strings.
 -/
 import Rl2tp.Prim
+import Rl2tp.Spec.Avp
 namespace Rl2tp.Spec.Hide
 
 def xor (a k : Bytes) : Bytes := List.zipWith (· ^^^ ·) a k
@@ -39,6 +40,17 @@ def plainBlock (c : Bytes) : Nat → Bytes
   | i + 1 => xor (block c (i + 1)) (md5 (s ++ block c i))
 
 def decrypted (c : Bytes) : Bytes := ((List.range (c.length / 16)).map (plainBlock md5 t s rv c)).flatten
+
+/-- the reference for `reveal`: nothing for an empty or misaligned value; otherwise decrypt, read the two-octet
+    original length `L` (the whole original AVP in the crate's convention: 6 ≤ L ≤ 1023 and the `L − 6` value octets
+    must lie within what follows the subfield), and read those octets by the payload table of the announced type.
+    `some a` = the revealed AVP, `none` = refused.  Uses `Spec.parsePayload`, not the model's decoders. -/
+def reveal (c : Bytes) : Option AVP :=
+  if c.length = 0 ∨ c.length % 16 ≠ 0 then none else
+  let plain := decrypted md5 t s rv c
+  let l := (Spec.u16At plain 0).toNat
+  if l < 6 ∨ l > 1023 ∨ l - 6 > c.length - 2 then none else
+  Spec.parsePayload t ((plain.drop 2).take (l - 6))
 end
 
 end Rl2tp.Spec.Hide
